@@ -74,7 +74,7 @@ func ruleRootPublishers(r *Report, in introducers, rule string) {
 			info := fi.Pkg.TypesInfo
 			ast.Inspect(fi.Decl.Body, func(x ast.Node) bool {
 				id, ok := x.(*ast.Ident)
-				if !ok || info.Uses[id] != t.Obj {
+				if !ok || canonObj(info.Uses[id]) != types.Object(t.Obj) {
 					return true
 				}
 				n++
@@ -94,7 +94,7 @@ func ruleRootPublishers(r *Report, in introducers, rule string) {
 		}
 		info := fi.Pkg.TypesInfo
 		ast.Inspect(fi.Decl.Body, func(x ast.Node) bool {
-			if id, ok := x.(*ast.Ident); ok && info.Uses[id] == lf.Obj {
+			if id, ok := x.(*ast.Ident); ok && canonObj(info.Uses[id]) == types.Object(lf.Obj) {
 				r.Ob(rule, fi.Name+"->loadFromBolt", id.Pos(), fi.Name == "index/scorch.(*Scorch).openBolt", "the stored root is loaded only in the open phase")
 			}
 			return true
